@@ -219,7 +219,23 @@ var opsByKind = map[string][]string{
 }
 
 // execOp runs one public API call and renders its complete result as text.
-func execOp(op pOp, r *rInput) (res string) {
+func execOp(op pOp, r *rInput) string { return execOpKeep(op, r, nil) }
+
+// execOpKeep additionally hands back, through keep, a function that renders the
+// result of the call again from the very object the library returned (the
+// string, the model, the graph - not a copy). Called after everything else has
+// run, it must still give the same text: a result that aliases memory the
+// library goes on using (a pooled buffer behind an unsafe string, a cached
+// message handed out twice) changes under the caller's hands.
+func execOpKeep(op pOp, r *rInput, keep *func() string) (res string) {
+	if scribbleResults {
+		keep = nil // the harness itself overwrites the returned objects
+	}
+	kept := func(f func() string) {
+		if keep != nil {
+			*keep = f
+		}
+	}
 	defer func() {
 		if p := recover(); p != nil {
 			if simrt.IsAbort(p) {
@@ -242,12 +258,14 @@ func execOp(op pOp, r *rInput) (res string) {
 		if scribbleResults {
 			scribbleModel(m)
 		}
+		kept(func() string { return "model: " + detBytes(m) })
 		return out
 	case "dsl2json":
 		s, err := transformer.TransformDSLToJSON(r.dsl)
 		if err != nil {
 			return "error: " + err.Error()
 		}
+		kept(func() string { return "json: " + s })
 		return "json: " + s
 	case "moddsl2proto":
 		m, ext, err := transformer.TransformModularDSLToProto(r.dsl)
@@ -275,12 +293,14 @@ func execOp(op pOp, r *rInput) (res string) {
 		if err != nil {
 			return "error: " + err.Error()
 		}
+		kept(func() string { return "dsl: " + *s })
 		return "dsl: " + *s
 	case "proto2dsl":
 		s, err := transformer.TransformJSONProtoToDSL(r.pm, opts...)
 		if err != nil {
 			return "error: " + err.Error()
 		}
+		kept(func() string { return "dsl: " + s })
 		return "dsl: " + s
 	case "plaingraph":
 		g, err := graph.NewAuthorizationModelGraph(r.pm)
@@ -314,6 +334,7 @@ func execOp(op pOp, r *rInput) (res string) {
 			// on the traversal order (not fixed by any statement): verdict only
 			return "rejected"
 		}
+		kept(func() string { return "graph: " + snapshot(g).text })
 		return "graph: " + snapshot(g).text
 	case "graphquery":
 		g := r.sharedG
@@ -368,6 +389,7 @@ func execOp(op pOp, r *rInput) (res string) {
 		if err != nil {
 			return "error: " + err.Error()
 		}
+		kept(func() string { return "model: " + detBytes(m) })
 		return "model: " + detBytes(m)
 	case "mustdsl":
 		// the Must* variants panic on error: the panic value is the result
@@ -424,6 +446,7 @@ func execOp(op pOp, r *rInput) (res string) {
 		if scribbleResults {
 			scribbleModel(o.Model)
 		}
+		kept(func() string { return "model: " + detBytes(o.Model) })
 		return out
 	case "modfile":
 		mf, err := transformer.TransformModFile(r.dsl)
@@ -454,7 +477,8 @@ type opResult struct {
 	task  int
 	op    pOp
 	res   string
-	input string // "" or what was modified
+	input string        // "" or what was modified
+	again func() string // renders the retained result object once more (nil: nothing retained)
 }
 
 type pureCtx struct {
@@ -515,7 +539,8 @@ func (c *pureCtx) check(cfg simrt.Config) ([]mismatch, simrt.Stats, string) {
 					continue
 				}
 				simrt.Note("op."+op.Kind, "invoke", int64(op.In))
-				res := execOp(op, rin[op.In])
+				var again func() string
+				res := execOpKeep(op, rin[op.In], &again)
 				simrt.Note("op."+op.Kind, "return", int64(op.In))
 				in := ""
 				if !raceMode {
@@ -524,7 +549,7 @@ func (c *pureCtx) check(cfg simrt.Config) ([]mismatch, simrt.Stats, string) {
 					// are compared after the tasks only)
 					in = rin[op.In].untouched()
 				}
-				results[t] = append(results[t], opResult{task: t, op: op, res: res, input: in})
+				results[t] = append(results[t], opResult{task: t, op: op, res: res, input: in, again: again})
 			}
 		}
 	}
@@ -621,6 +646,26 @@ func (c *pureCtx) check(cfg simrt.Config) ([]mismatch, simrt.Stats, string) {
 				}
 				add(class, "task %d %s(input %d, opt=%v): %s", rs.task, rs.op.Kind, rs.op.In, rs.op.Opt, diffAt(want, rs.res))
 			}
+		}
+	}
+	// results the callers kept: after all the other calls of the run (and the
+	// reference calls) the objects the library handed out must still say what
+	// they said when they were returned
+	for t := range results {
+		for _, rs := range results[t] {
+			if rs.again == nil {
+				continue
+			}
+			func() {
+				defer func() {
+					if p := recover(); p != nil {
+						add("result.changed_later", "task %d %s(input %d): rendering the retained result again panics: %v", rs.task, rs.op.Kind, rs.op.In, p)
+					}
+				}()
+				if now := rs.again(); now != rs.res {
+					add("result.changed_later", "task %d %s(input %d, opt=%v): the object the call returned changed after the call returned (aliases memory the library went on using): %s", rs.task, rs.op.Kind, rs.op.In, rs.op.Opt, diffAt(rs.res, now))
+				}
+			}()
 		}
 	}
 	if wl.ProcessRestart {
